@@ -52,10 +52,12 @@ def plan(tier):
         """items: list of tag tuples; `group` shapes share one harness (the per-harness fixed cost of
         goto-instrument on this crate is ~8 s, far more than the solver needs per shape)."""
         # keep map shapes apart (they need the RandomState stub and are slower)
-        plain = [t for t in items if not uses_map(t)]
+        heavy_tag = lambda x: x in (8, 11, 15, 20)  # two-element containers: loops over elements
+        plain = [t for t in items if not uses_map(t) and not any(heavy_tag(x) for x in t)]
+        heavy = [t for t in items if not uses_map(t) and any(heavy_tag(x) for x in t)]
         maps = [t for t in items if uses_map(t)]
         n = 0
-        for part, g in ((plain, group), (maps, 2)):
+        for part, g in ((plain, group), (heavy, 1 if len(items[0]) > 1 else 2), (maps, 2)):
             for i in range(0, len(part), g):
                 chunk = part[i:i + g]
                 fn = "%s_%d" % (prefix, n)
@@ -67,8 +69,12 @@ def plan(tier):
            lambda t: "unary_laws(%d, false);" % t, 8)
     family("c10_nan_unary", "nan_region", "Eq reflexive where some float payload is NaN",
            [(a,) for a in unary if a in FLOATY], lambda t: "unary_laws(%d, true);" % t, 8)
+    # same-tag pairs are where Ord/Eq/Hash can actually disagree: one harness each, so that a heavy comparison
+    # (e.g. wide multiplications) gets the whole per-harness budget instead of sharing a formula with five others
+    family("c10_pairsame", "pair", "antisymmetry, Ord<->Eq agreement, Eq=>same hash stream, cypher_order antisymmetry",
+           [t for t in pairs if t[0] == t[1]], lambda t: "pair_laws(%d, %d, false);" % t, 1)
     family("c10_pair", "pair", "antisymmetry, Ord<->Eq agreement, Eq=>same hash stream, cypher_order antisymmetry",
-           pairs, lambda t: "pair_laws(%d, %d, false);" % t, 6)
+           [t for t in pairs if t[0] != t[1]], lambda t: "pair_laws(%d, %d, false);" % t, 6)
     family("c10_nan_pair", "nan_region", "Ord agrees with Eq where some float payload is NaN",
            [(a, b) for a, b in pairs if a in FLOATY and b in FLOATY and BUCKET[a] == BUCKET[b]],
            lambda t: "pair_laws(%d, %d, true);" % t, 6)
